@@ -129,18 +129,71 @@ PLANS["C06"] = {
                     "engines)", "cells the documents are silent about (CBCS with 192/256-bit keys, CCM with the "
                     "other chain order) are counted, not judged"],
 }
+def _selftest_post(agg, res, label, synthetic):
+    """entries announced by a clean init versus the pinned list (vlib/selftest_pin.json)"""
+    import json as _json
+    import re as _re
+    here = os.path.dirname(os.path.abspath(__file__))
+    pin = agg.__dict__.get("st_pin")
+    if pin is None:
+        pin = _json.load(open(os.path.join(here, "selftest_pin.json")))["entries"]
+        agg.st_pin = pin
+        doc = set()
+        try:
+            txt = open(os.path.join(os.environ.get("IMBV_REPO", "/repo"), "README.md")).read()
+            sec = txt.split("### Self-Test", 1)[1]
+            sec = sec.split("The self-test consists of", 1)[1].split("KAT_Cipher and KAT_AEAD types", 1)[0]
+            for ln in sec.splitlines():
+                m = _re.match(r"\s+-\s+([A-Za-z0-9-]+)\s*$", ln)
+                if m:
+                    doc.add(m.group(1))
+        except (OSError, IndexError):
+            pass
+        agg.st_doc = doc
+        agg.extra["documented_selftest_families"] = [", ".join(sorted(doc))]
+    for line in res["out"].splitlines():
+        if not line.startswith('{"ev":"selftest_entries"'):
+            continue
+        try:
+            ev = _json.loads(line)
+        except ValueError:
+            continue
+        got = set(ev["names"].split(","))
+        agg.counts["entry_list_comparisons"] = agg.counts.get("entry_list_comparisons", 0) + 1
+        for e in pin:
+            if e["name"] in got:
+                continue
+            if agg.st_doc and e["readme_family"] not in agg.st_doc:
+                continue  # no longer documented: not demanded
+            synthetic.append(("C20", "C20|%s|entry-missing|%s" % (ev["cfg"], e["name"]),
+                              "a clean initialisation on %s announced %d self-test entries without %s (family %s is "
+                              "listed in README 'Self-Test'; the entry is part of the pinned list of this commit)"
+                              % (ev["cfg"], len(got), e["name"], e["readme_family"]), None))
+
+
+def _c20(tier, seed):
+    runs = _simple("selftest", 300, 20000, shards=N)(tier, seed)
+    for r in runs:
+        r["post"] = _selftest_post
+    return runs
+
+
 PLANS["C20"] = {
     "level": "fault_enumeration",
-    "runs": _simple("selftest", 300, 20000, shards=N),
+    "runs": _c20,
     "cov_class": "C20",
     "exhaustive": True,
     "rule": ("fault enumeration over the self-test entries announced by the callback stream (33 on this build): "
              "each entry corrupted alone (exhaustive), pairs (quick: every 6th pair, thorough: all 528), random "
              "subsets, on each of the 16 (init function, flags) configurations; after each init the FAIL set, "
-             "callback order, pass bit, IMB_FEATURE_SELF_TEST and errno are checked. distinct = distinct "
+             "callback order, pass bit, IMB_FEATURE_SELF_TEST and errno are checked; the errno of a failed manager "
+             "must survive a successful call on a second manager; the entry list of every clean init is compared "
+             "with the pinned 33-entry list (vlib/selftest_pin.json) for families still documented. distinct = distinct "
              "(configuration, corruption set) cases; non-trivial = at least one entry corrupted."),
-    "floors": {"quick": {"inits": 2000, "selftest_entries": 400}},
-    "assumptions": ["the documented algorithm list is taken from README section 'Self-Test'"],
+    "floors": {"quick": {"inits": 2000, "selftest_entries": 400, "errno_persistence_checks": 1500,
+                         "entry_list_comparisons": 16}},
+    "assumptions": ["the documented algorithm list is taken from README section 'Self-Test'; per-key-size entries "
+                    "from the pinned list of this commit"],
 }
 
 
